@@ -180,6 +180,18 @@ func lifeOps(w *world.World, ctx sdk.Context, o LifeOpts) []engine.Op {
 			}
 		}
 	}
+	// multi-model requests: one renewal naming every existing model
+	if o.Renew && len(o.DataIds) > 1 {
+		var all []string
+		for _, d := range o.DataIds {
+			if m, ok := a.ModelKeeper.GetMetadata(ctx, d); ok && m.Status == modeltypes.MetaComplete {
+				all = append(all, d)
+			}
+		}
+		if len(all) > 1 {
+			out = append(out, Tx("renew", fmt.Sprintf("renew(all,%d)", o.RenewDur[0]), RenewMsg(w, world.O, world.G, world.G, o.RenewDur[0], 100, all...)))
+		}
+	}
 	holders := map[string]bool{}
 	for _, ord := range a.OrderKeeper.GetAllOrder(ctx) {
 		if o.Cancel && ord.Status != ordertypes.OrderCompleted {
@@ -208,6 +220,9 @@ func lifeOps(w *world.World, ctx sdk.Context, o LifeOpts) []engine.Op {
 	}
 	for _, s := range o.SPs {
 		sp := w.A(s)
+		if o.Migrate && holders[sp.S()] && len(o.DataIds) > 1 {
+			out = append(out, Tx("migrate", fmt.Sprintf("migrate(%s,all)", sp.Name), &saotypes.MsgMigrate{Creator: sp.S(), Provider: sp.S(), Data: o.DataIds}))
+		}
 		if o.Migrate && holders[sp.S()] {
 			for _, d := range o.DataIds {
 				if _, ok := a.ModelKeeper.GetMetadata(ctx, d); ok {
